@@ -19,6 +19,85 @@ CHECKS = {
               "numpy evaluation, chunks tile the run and contain their rows, no hang / lost wake-up / exception, "
               "and a fresh context re-reads every stored type correctly."),
         note=PIPE_NOTE),
+    "C02": dict(
+        category="exploration", design_ref="DESIGN.md §5 C02",
+        text=("Seeded operation histories (set_config of tracked / untracked / shared options, re-registration "
+              "with another default / version / class name / dependency / compressor, new_context, make, "
+              "get_array, a second live context on the same directory, restart with only the simulated disk "
+              "surviving, fuzzy contexts) against the real Context and file storage on SimFS. After every "
+              "operation: rows equal an independent numpy evaluation under the current settings; the live "
+              "context's keys equal a brand-new context's; keys are equal exactly when a plain-data reference "
+              "lineage is equal; fuzzy acceptance equals the reference filter and writes nothing; sampled "
+              "histories are re-executed in fresh interpreters with other hash seeds and permuted option order."),
+        note=("Trusted: the reference lineage model in dst/checks/c02.py and the numpy oracle; simulator shims. The "
+              "history dimension is what is explored; thread schedules matter little here.")),
+    "C03": dict(
+        category="exploration", design_ref="DESIGN.md §5 C03",
+        text=("Seeded save-then-load round trips through the real Saver / FileSaver / strax.io / Rechunker / "
+              "loader on SimFS: four structured dtypes (endtime, dt*length, array-valued, titled fields), "
+              "law-abiding chunk sequences incl. empty and zero-duration chunks and overlapping rows, all four "
+              "compressors, rechunk on/off with targets from one row up, serial or simulated thread-pool saving "
+              "and loading (completion order decided by the scheduler). Oracle: bit-identical rows, same overall "
+              "range, contiguous boundaries equal to / subset of the written ones, metadata fields agree with "
+              "the files, no leftovers. Fault-free configuration of the C04 machinery."),
+        note="Trusted: SimFS models open/write/rename/listdir faithfully; simulator shims for the pool."),
+    "C04": dict(
+        category="fault_enumeration", design_ref="DESIGN.md §5 C04",
+        text=("Per seeded workload (make of a generated graph on SimFS on top of an empty / partial / broken / "
+              "crashed prior directory state; both processors; serial and pool saving; rechunking) the fault-free "
+              "execution is recorded and EVERY mutating file-system operation of it is re-executed with each of "
+              "EIO, process death before, process death after, and torn write + death (writes). After each: "
+              "fresh Context, is_stored must not raise, everything stored loads completely and equals the "
+              "oracle, the identical make succeeds without cleanup, every type is then obtainable and correct, "
+              "and an I/O error on a saver's file is never a normal return. Exhaustive over fault positions of "
+              "each sampled execution; workloads sampled."),
+        note=("Trusted: crash model = process death with completed operations durable (strax never syncs); SimFS "
+              "write model (truncate at open, content at close, rmtree non-atomic, rename atomic); determinism "
+              "of the simulator, which makes operation k the same operation in the faulty re-execution.")),
+    "C10": dict(
+        category="exploration", design_ref="DESIGN.md §5 C10",
+        text=("Stored layouts on SimFS (every type in its own chunking) and requests with time_range / "
+              "seconds_range / time_within, fully_contained / touching, selection strings / lists / callables, "
+              "keep / drop columns, one or several same-kind targets, both processors; endpoints on, just inside "
+              "and outside row and chunk edges and beyond the run. Oracle: the same predicate and projection in "
+              "plain numpy on the whole-run rows; a range overlapping no chunk must raise; storage digest unchanged."),
+        note=PIPE_NOTE),
+    "C11": dict(
+        category="exploration", design_ref="DESIGN.md §5 C11",
+        text=("Generated graphs with per-output save policies x stored subsets in two front-ends (readonly / "
+              "take_only / exclude) x targets, save=, request modifiers (selection, columns, time range, fuzzy, "
+              "allow_incomplete) and forbid_creation_of; a small reference planner written from the property "
+              "predicts what must run, load, be saved where, and fail; observed through compute-call logs of the "
+              "harness plugins (0 calls <=> must not run; each input row delivered once), rows, exception type "
+              "and the directory diff of both front-ends re-read by a fresh context."),
+        note=PIPE_NOTE + " The reference planner (dst/checks/c11.py) is part of the trusted base."),
+    "C14": dict(
+        category="exploration", design_ref="DESIGN.md §5 C14",
+        text=("1-4 generated subruns with own chunk layouts and gaps of 0 / 1 / 5000 / 2e9 ns, run metadata and "
+              "define_run on SimFS, chains whose allow_superrun level starts at depth 0-2, write_superruns "
+              "on/off, rechunking across subrun borders, both processors, reload from a fresh context and "
+              "redefinition. Oracle: ordered concatenation of per-subrun oracles; chunk.subruns spans tile every "
+              "subrun exactly once, lie inside their chunk and contain the rows they claim; redefinition makes "
+              "old superrun data unavailable and returns the new concatenation."),
+        note=PIPE_NOTE),
+    "C15": dict(
+        category="exploration", design_ref="DESIGN.md §5 C15",
+        text=("multi_run's pool is a simulated executor; 2-8 runs, 1-8 workers, one or several same-kind targets, "
+              "cold / warm plugin cache, with and without storage, get_array / get_df / make, one run made to "
+              "fail with and without ignore_errors. Worker threads share ONE Context and are pre-empted at line "
+              "granularity inside strax/context.py via sys.settrace with seeded probability. Oracle: per-run "
+              "oracles in run-id order with the run_id column; the failing run's own exception or its omission; "
+              "no exception from Context bookkeeping; no temporary plugin left."),
+        note=PIPE_NOTE + " Line-level pre-emption only inside strax/context.py and multi_run."),
+    "C16": dict(
+        category="exploration", design_ref="DESIGN.md §5 C16",
+        text=("Seeded transformations of stored data on SimFS: strax.rechunker (any compressor, target size, "
+              "serial / thread / process-stub, in place via TemporaryDirectory+move or to a new location), "
+              "copy_to_frontend with recompression and rechunking, rechunk_on_load under both processors and a "
+              "pool, per-chunk make over random groupings + merge_per_chunk_storage. Oracle: same rows, C03 "
+              "metadata consistency for the destination incl. new compressor / target size, source digest "
+              "unchanged unless replaced, no temporary leftovers."),
+        note="Trusted: SimFS incl. TemporaryDirectory / move; process pools are a pickle-boundary stub on sim threads."),
     "C06": dict(
         category="exploration", design_ref="DESIGN.md §5 C06",
         text=("One injected failure per simulated run - plugin or pool-worker exception at a chosen row/chunk, "
